@@ -95,6 +95,11 @@ def rounding_bound(u, w, D):
 
 # inputs on which the unchanged tree once failed (kept so that the defect is reported again if it returns)
 PINNED = [
+    # likelihood_ascent raised by the thorough tier on the unchanged tree: with min_value_par = 1e-5 a membership is truncated to zero at
+    # iteration 40 and the recorded value falls from -3.00928 to -3.01372 before it recovers (with threshold 0 the same run ascends
+    # throughout): known finding F53, the thresholding is part of the algorithm
+    {"N": 5, "K": 2, "edges": [(1, 2, 3, 4), (1, 3), (1, 3, 4)], "weights": None, "family": "zero", "seed": 395084, "n_realizations": 1,
+     "max_iter": 60, "every": 3, "normalizeU": False, "baseline_r0": True, "min_value_par": 1e-05, "weighted_L": True},
     # fit raised AssertionError: a community with all-zero affinities gave 0/0 in the membership update (fix e1f0483)
     {"N": 8, "K": 3, "edges": [(1, 3, 4), (4, 6), (1, 4, 6), (1, 3, 7), (1, 3, 6)], "weights": None, "family": "zero",
      "seed": 72647, "n_realizations": 2, "max_iter": 25, "every": 1, "normalizeU": False, "baseline_r0": True,
@@ -320,7 +325,7 @@ def probe_class():
                            for e in self.verif_edges)
                 # a membership at the model's cap (values above max_value_par are set to the cap): the memberships are constrained
                 clipped = bool(np.any(u_ >= float(self.max_value_par)))
-                self.verif_cond.append((float(v), cond_bound(u_, w_), dead, clipped))
+                self.verif_cond.append((float(v), cond_bound(u_, w_), dead, clipped, int(np.count_nonzero(u_))))
             except Exception:
                 pass
             return v
@@ -487,6 +492,15 @@ def observe(cfg, idx):
             info["not_judged"]["ill_conditioned"] += n_ill
             for j, c_ in zip(ix, codes):
                 tcode[j] = c_
+        # a membership that was positive at the previous evaluation of this realisation is exactly 0 now: the threshold min_value_par
+        # truncated it in between (with threshold 0 nothing is truncated)
+        trunc = [False] * len(tl)
+        for j in range(1, len(tl)):
+            trunc[j] = bool(cfg["min_value_par"] > 0 and reals[j] == reals[j - 1] and cond[j][4] < cond[j - 1][4])
+        dec = [j for j in range(1, len(tl)) if reals[j] == reals[j - 1] and tcode[j] < tcode[j - 1]]
+        info["membership_truncated_in_step"] = trunc
+        info["decreasing_steps"] = dec
+        info["every_decrease_follows_a_truncation"] = bool(dec) and all(trunc[j] for j in dec)
         info["rounding_bounds"] = [c_[1] for c_ in cond]
         info["impossible_hyperedge"] = [c_[2] for c_ in cond]
         info["membership_at_cap"] = clipped
@@ -614,8 +628,17 @@ def validate(res, tier, rng, only=None):
                    "membership_at_cap": infos[i].get("membership_at_cap"),
                    "rounding_bounds": infos[i].get("rounding_bounds")}
         if prop:
-            res.reject(hist({"clauses": prop, "method": "mt", "normalizeU": cfg["normalizeU"]}, cfg),
-                       "HypergraphMT.fit train_info breaks %s (first at event %d): %s" % (",".join(prop), rj[0][0], short(cfg)), payload)
+            sig = {"clauses": prop, "method": "mt", "normalizeU": cfg["normalizeU"]}
+            why = ""
+            if prop == ["likelihood_ascent"] and infos[i].get("every_decrease_follows_a_truncation"):
+                # the only decreases of this run are values computed right after the threshold min_value_par > 0 set a positive
+                # membership to zero: a finding of its own (known_findings.json), any other decrease keeps the plain signature
+                sig["cause"] = "membership_truncated_to_zero_in_step"
+                why = " [every decrease follows a truncation of a membership by min_value_par=%g: steps %s]" % (
+                    cfg["min_value_par"], infos[i].get("decreasing_steps"))
+                payload["membership_truncated_in_step"] = infos[i].get("membership_truncated_in_step")
+            res.reject(hist(sig, cfg),
+                       "HypergraphMT.fit train_info breaks %s (first at event %d): %s%s" % (",".join(prop), rj[0][0], short(cfg), why), payload)
         elif model:
             res.model_drift("train_info / hook events deviate from EMDriver in %s: %s" % (",".join(model), short(cfg)))
     # exploration-level keys: one evaluation = one configuration (HySC twice + Hypergraph-MT twice); a configuration is
